@@ -55,7 +55,8 @@ def _create(case, tag, how=None):
         else:
             seed = bytes.fromhex(case['source']['seed'])
         keys = HDKey.from_seed(seed, network=net, witness_type=wt)
-    w = Wallet.create('w', keys=keys, network=net, witness_type=wt, db_uri=uri)
+    w = Wallet.create('w', keys=keys, network=net, witness_type=wt, db_uri=uri,
+                      **({'account_id': case['account0']} if case.get('account0') else {}))
     return w, uri, path
 
 
@@ -150,7 +151,13 @@ def _run_case_inner(ctx, case):
         # ---- watch-only from the account public key -------------------------------------------------------
         wt = case['witness_type']
         try:
-            xpub = w.wif(is_private=False)
+            # the account is named explicitly (the lowest one that has keys), whatever the default account is by now
+            ppfx = wu.path_str([HARD + PURPOSE[wt]])[0:2 + len(str(PURPOSE[wt])) + 1]
+            present = sorted(set(k.account_id for k in w.keys(depth=5) if k.path.startswith(ppfx)))
+            acc_wo = present[0] if present else (case.get('account0') or 0)
+            xpub = w.wif(is_private=False, account_id=acc_wo)
+            if acc_wo != w.default_account_id:
+                ctx.klass('restore.watchonly.non_default_account')
             from bitcoinlib.wallets import Wallet
             uri3, path3 = wu.db_uri(tag + '-wo')
             paths.append(path3)
@@ -160,7 +167,7 @@ def _run_case_inner(ctx, case):
                               'raised %r' % e, case)
         try:
             orig = {}
-            for k in w.keys(account_id=0, depth=5):
+            for k in w.keys(account_id=acc_wo, depth=5):
                 if k.path.startswith(wu.path_str([HARD + PURPOSE[wt]])[0:2 + len(str(PURPOSE[wt])) + 1]):
                     orig[(k.change, k.address_index)] = k.address
             n_cmp = 0
@@ -199,8 +206,10 @@ def _run_ops(ctx, case, w, uri, master, flags, reopen=True):
     net, wt0 = case['network'], case['witness_type']
     log = []
     chains = {}     # (wt, account, change) -> set of indices known to exist
-    chains[(wt0, 0, 0)] = {0}      # Wallet.create makes the first receiving key
-    accounts = {wt0: {0}}
+    acc0 = case.get('account0') or 0
+    chains[(wt0, acc0, 0)] = {0}      # Wallet.create makes the first receiving key (of its default account)
+    accounts = {wt0: {acc0}}
+    default = [acc0]
     all_addr = {}
     state = {'w': w}
 
@@ -263,14 +272,22 @@ def _run_ops(ctx, case, w, uri, master, flags, reopen=True):
                                       (a.path, a.account_id, exp, want), case)
                 accounts.setdefault(wt, set()).add(a.account_id)
                 flags.add('multi_account')
+            elif name == 'set_default_account':
+                known = sorted(accounts.get(wt0, set()))
+                a = known[op['pick'] % len(known)]
+                w.default_account_id = a
+                default[0] = a
+                if a != acc0:
+                    flags.add('default_account_changed')
             elif name == 'key_for_path':
+                # no account named: the wallet's default account
                 k = w.key_for_path([op['change'], op['index']], witness_type=op.get('wt')) if op.get('wt') else \
                     w.key_for_path([op['change'], op['index']])
-                note(k, wt, 0, op['change'], op['index'])
+                note(k, wt, default[0], op['change'], op['index'])
             elif name == 'keys_for_path':
                 ks = w.keys_for_path([op['change'], op['index']], number_of_keys=op['count'])
                 for j, k in enumerate(ks):
-                    note(k, wt0, 0, op['change'], op['index'] + j)
+                    note(k, wt0, default[0], op['change'], op['index'] + j)
                 if len(ks) != op['count']:
                     raise Discrepancy('keys_for_path.count', 'keys_for_path(number_of_keys=%d) returned %d keys' %
                                       (op['count'], len(ks)), case)
@@ -340,8 +357,10 @@ def _strategy(ctx):
             st.fixed_dictionaries({'op': st.just('keys_for_path'), 'change': st.sampled_from([0, 1]),
                                    'index': st.sampled_from([0, 3, 20]), 'count': st.integers(1, 3)}),
             st.just({'op': 'reopen'}),
+            st.fixed_dictionaries({'op': st.just('set_default_account'), 'pick': st.integers(0, 3)}),
         )
         return {'kind': 'keys', 'network': net, 'witness_type': wt, 'source': source,
+                'account0': draw(st.sampled_from([0, 0, 0, 2, 1])),
                 'ops': draw(st.lists(op, min_size=4, max_size=ctx.scale(12, 25)))}
     return cases()
 
